@@ -503,5 +503,6 @@ def mc_run(spec, cfg_text, workdir, tag, workers=8, timeout=3000, xmx="6g", want
                     pass
     depth = re.search(r"depth of the complete state graph search is (\d+)", out)
     tail = "\n".join(l for l in out.splitlines() if not re.match(r"^(Parsing|Semantic|Linting|Picked up|<<)", l))[-2500:]
-    return dict(spec=spec, ok=ok, states=states, distinct=distinct, depth=int(depth.group(1)) if depth else 0, progs=progs,
+    violated = re.findall(r"(?:Invariant|Action property|Temporal property|property) (\w+) is violated", out)
+    return dict(spec=spec, ok=ok, states=states, distinct=distinct, depth=int(depth.group(1)) if depth else 0, progs=progs, violated=violated,
                 wall=round(time.time() - t0, 1), out_tail=tail)
